@@ -124,7 +124,7 @@ fn gen_helpers(r: &mut rand::rngs::StdRng) -> Value {
 // ------------------------------------------------------------------ swarm part
 fn swarm_run(out: &mut Out, s: &Value) {
     let cfg = json!({"concurrency": 8});
-    let mut run = Run::new(&cfg); // has listener 1 with address 100 already
+    let mut run: Run = Run::new(&cfg); // has listener 1 with address 100 already
     run.rig.log.drain();
     let mut lids: Vec<ListenerId> = vec![run.rig.ids.listener_of(run.listener).unwrap()];
     let mut evs: Vec<Value> = vec![json!({"e": "initListener", "l": 1, "addr": 100})];
@@ -172,9 +172,9 @@ fn swarm_run(out: &mut Out, s: &Value) {
             "removeExternal" => {
                 run.rig.swarm.remove_external_address(&a(ad));
             }
-            "behConfirm" => run.rig.swarm.behaviour().b1.ctl.emit(ToSwarm::ExternalAddrConfirmed(a(ad))),
-            "behExpire" => run.rig.swarm.behaviour().b1.ctl.emit(ToSwarm::ExternalAddrExpired(a(ad))),
-            "behCandidate" => run.rig.swarm.behaviour().b1.ctl.emit(ToSwarm::NewExternalAddrCandidate(a(ad))),
+            "behConfirm" => run.behs()[0].ctl.emit(ToSwarm::ExternalAddrConfirmed(a(ad))),
+            "behExpire" => run.behs()[0].ctl.emit(ToSwarm::ExternalAddrExpired(a(ad))),
+            "behCandidate" => run.behs()[0].ctl.emit(ToSwarm::NewExternalAddrCandidate(a(ad))),
             "poll" => {}
             x => panic!("cmd {x}"),
         }
